@@ -397,3 +397,49 @@ fn entry_resource_mutation_reaches_exactly_its_reactors()
     kani::cover!(other_type, "other type"); kani::cover!(!other_type, "watched type");
     std::mem::forget(captured); std::mem::forget(world);
 }
+
+/// `ReactCommands::insert(entity, component)` applied on a live entity without entity-scoped reactors: the component is on
+/// the entity afterwards (wrapped, recording its owner) and exactly the type-wide INSERTION reactor of that component type is
+/// scheduled, once - not the mutation reactor; on a dead id nothing at all happens.
+#[kani::proof]
+#[kani::stub(core::any::TypeId::of, crate::vh::stub_typeid_of)]
+#[kani::stub(<core::any::TypeId as crate::vh::PEq>::eq, crate::vh::stub_typeid_eq)]
+#[kani::unwind(4)]
+fn entry_insert_live_entity() { entry_insert_kernel(false) }
+#[kani::proof]
+#[kani::stub(core::any::TypeId::of, crate::vh::stub_typeid_of)]
+#[kani::stub(<core::any::TypeId as crate::vh::PEq>::eq, crate::vh::stub_typeid_eq)]
+#[kani::unwind(4)]
+fn entry_insert_dead_entity() { entry_insert_kernel(true) }
+fn entry_insert_kernel(dead: bool)
+{
+    let mut world = World::new();
+    world.m_drop_table::<bevy::model::cell::LeakAll>();
+    let mut cache = ReactCache::default();
+    let on_insert = SystemCommand(ent(41)); let on_mutate = SystemCommand(ent(42));
+    crate::react::react_cache::verif_h::put_component_one_each::<Ka>(&mut cache, ReactorHandle::Persistent(on_insert), ReactorHandle::Persistent(on_mutate));
+    world.insert_resource(cache);
+    world.insert_resource(crate::ecs::auto_despawn::verif_h::mk_despawner());
+    let live = world.spawn_empty().id();
+    let target = if dead { Entity::m_new(live.index(), live.generation() + 1) } else { live };
+    let mut captured: Vec<ReactionCommand> = Vec::with_capacity(4);
+    world.m_capture(&mut captured);
+    world.m_set_cmd_mode(CmdMode::Immediate);
+    let wp = &mut world as *mut World;
+    let v: u8 = kani::any();
+    { let mut rc = ReactCommands{ commands: cmds(wp) }; rc.insert(target, Ka(v)); }
+    if dead
+    {
+        assert!(captured.len() == 0 && !world.m_has::<React<Ka>>(live), "C14/C18: inserting on an entity that does not exist inserts nothing and triggers nothing");
+    }
+    else
+    {
+        let c = world.get::<React<Ka>>(live);
+        assert!(c.map(|c| c.entity == live && c.component.0 == v).unwrap_or(false), "C14: the component is on the entity, recording its owner");
+        assert!(captured.len() == 1, "C14/C01: exactly one insertion trigger = one reaction per insertion reactor; mutation reactors are not triggered");
+        assert!(matches!(&captured[0], ReactionCommand::EntityReaction{ reaction_source, reaction_type: EntityReactionType::Insertion(_), reactor } if *reaction_source == live && *reactor == on_insert),
+            "C01/C03: the insertion reactor, with the entity as source");
+    }
+    kani::cover!(true, "end of harness reached");
+    std::mem::forget(captured); std::mem::forget(world);
+}
